@@ -60,6 +60,29 @@ def richardson(f, x: np.ndarray, k: int) -> float:
     return float(t[0])
 
 
+def buffer_ok(f, g, x, b) -> bool:
+    """a function of x, not of the array object or of what was evaluated before: the caller refills ONE buffer in place
+    (gradient first, then value; again after an in-place perturbation; after an in-place scaling; after a refill).
+    All the in-place calls come first and the reference values (on fresh arrays) are computed afterwards, so that
+    no reference evaluation comes between two uses of the buffer."""
+    b[:] = x
+    gb, fb = np.asarray(g(b)).copy(), f(b)
+    b[0] += 1.0
+    fp, gp = f(b), np.asarray(g(b)).copy()
+    np.multiply(b, 0.5, out=b)
+    gq, fq = np.asarray(g(b)).copy(), f(b)
+    xq = b.copy()
+    b[:] = x
+    fb2, gb2 = f(b), np.asarray(g(b)).copy()
+    xp = x.copy()
+    xp[0] += 1.0
+    fx, gx = f(x.copy()), np.asarray(g(x.copy()))
+    fpr, gpr = f(xp.copy()), np.asarray(g(xp.copy()))
+    fqr, gqr = f(xq.copy()), np.asarray(g(xq.copy()))
+    return (fhex(float(fb)) == fhex(float(fx)) and fhex(float(fb2)) == fhex(float(fx)) and vhex(gb) == vhex(gx) and vhex(gb2) == vhex(gx)
+            and fhex(float(fp)) == fhex(float(fpr)) and vhex(gp) == vhex(gpr) and fhex(float(fq)) == fhex(float(fqr)) and vhex(gq) == vhex(gqr))
+
+
 def search(npts: int, seed: int, rep: Report) -> List[Dict[str, Any]]:
     import lbfgsb
     rng = np.random.default_rng(seed)
@@ -82,18 +105,10 @@ def search(npts: int, seed: int, rep: Report) -> List[Dict[str, Any]]:
             if gx.shape != x.shape:
                 bad.append({"what": f"{name}_grad does not have the shape of x", "case": {"fn": name, "x": list(x)}})
                 break
-            # a function of x, not of the array object or of what was evaluated before: the caller refills ONE
-            # buffer in place (gradient first, then value, then again after an in-place perturbation and its undo)
-            b = bufs.setdefault((name, n), np.empty(n))
-            b[:] = x
-            gb, fb = np.asarray(g(b)).copy(), f(b)
-            b[0] += 1.0
-            f(b); g(b)
-            b[0] = x[0]
-            fb2, gb2 = f(b), np.asarray(g(b)).copy()
-            if fhex(float(fb)) != fhex(float(fx)) or fhex(float(fb2)) != fhex(float(fx)) or vhex(gb) != vhex(gx) or vhex(gb2) != vhex(gx):
+            same = buffer_ok(f, g, x, bufs.setdefault((name, n), np.empty(n)))
+            if not same:
                 bad.append({"what": f"{name} / {name}_grad is not a function of x: the value depends on the array object reused by the caller "
-                                    "or on earlier evaluations", "case": {"fn": name, "x": [float(v) for v in x]}})
+                                    "or on earlier evaluations", "case": {"fn": name, "x": [float(v) for v in x], "buffer": True}})
                 break
             num = np.array([richardson(f, x, k) for k in range(n)])
             scale = max(1.0, float(np.max(np.abs(num))))
@@ -200,6 +215,13 @@ def replay(path: str) -> int:
         return 1
     x = np.array(c["x"])
     f, g = getattr(lbfgsb, c["fn"]), getattr(lbfgsb, c["fn"] + "_grad")
+    if c.get("buffer"):
+        b = np.empty(x.size)
+        b[:] = x + 3.0
+        f(b); g(b)
+        ok = buffer_ok(f, g, x, b)
+        print("replay", c["fn"], "values on a buffer refilled in place equal those on fresh arrays:", ok)
+        return 0 if ok else 1
     num = np.array([richardson(f, x, k) for k in range(x.size)])
     gx = np.asarray(g(x.copy()))
     err = float(np.max(np.abs(num - gx))) / max(1.0, float(np.max(np.abs(num))))
